@@ -25,7 +25,9 @@ func (o Outfile) String() string {
 
 // Query represents a parsed mapr query.
 type Query struct {
-	Select       []selectCondition
+	Select []selectCondition
+	// Like Select, but every aggregation only once (e.g. for "select count(x),count(x)").
+	Aggregations []selectCondition
 	Table        string
 	Where        []whereCondition
 	Set          []setCondition
@@ -101,6 +103,14 @@ func (q *Query) parse(tokens []token) error {
 	if len(q.Select) < 1 {
 		return errors.New(invalidQuery + "Expected at least one field in 'select' " +
 			"clause but got none")
+	}
+
+	seen := make(map[string]struct{}, len(q.Select))
+	for _, sc := range q.Select {
+		if _, ok := seen[sc.FieldStorage]; !ok {
+			seen[sc.FieldStorage] = struct{}{}
+			q.Aggregations = append(q.Aggregations, sc)
+		}
 	}
 
 	if len(q.GroupBy) == 0 {
